@@ -20,7 +20,12 @@ LEAN = os.path.join(VERIF, "lean")
 HARNESS = os.path.join(VERIF, "harness")
 WORK = os.path.join(VERIF, "work")
 HX = os.path.join(HARNESS, "target", "release", "hx")
-MODELDRIVER = os.path.join(LEAN, ".lake", "build", "bin", "modeldriver")
+
+
+def modeldriver(pid):
+    """One model-driver executable per property (lean/Driver/<pid>.lean → md_<pid>)."""
+    return os.path.join(LEAN, ".lake", "build", "bin", "md_" + pid)
+
 ALLOWED_AXIOMS = {"propext", "Classical.choice", "Quot.sound"}
 FORBIDDEN = re.compile(r"\bsorry\b|\badmit\b|^axiom |native_decide|bv_decide|implemented_by|\bunsafe |maxHeartbeats 0|\bextern\b", re.M)
 
@@ -196,10 +201,10 @@ def run_chunk(pid, idx, cases, workdir, timeout):
         oracle.append((k, "process-died: " + err.replace("\n", " ")[:300]))
         impl = impl + ["CRASH"] + ["NOT-RUN"] * (len(cases) - k - 1)
     model = None
-    if os.path.exists(MODELDRIVER):
+    if os.path.exists(modeldriver(pid)):
         mi = "\n".join(c + "\t" + o for c, o in zip(cases, impl)) + "\n"
         try:
-            p = subprocess.run([MODELDRIVER, pid], input=mi, stdout=subprocess.PIPE, stderr=subprocess.PIPE,
+            p = subprocess.run([modeldriver(pid)], input=mi, stdout=subprocess.PIPE, stderr=subprocess.PIPE,
                                timeout=timeout, text=True)
             model = p.stdout.split("\n")
             if model and model[-1] == "":
@@ -351,9 +356,13 @@ def check_property(pid, tier, seed, replay=None):
             broken.append("extractor tools/extract_tables.py: %s" % e)
 
     # 2. Lean: model driver + property theorems
-    rc, out = lake_build(["modeldriver"])
+    rc, out = lake_build(["md_" + pid])
     if rc != 0:
-        broken.append("lake build modeldriver failed (model does not compile): " + out[-1500:])
+        broken.append("lake build md_%s failed (model or driver does not compile): %s" % (pid, out[-1500:]))
+        try:
+            os.remove(modeldriver(pid))
+        except OSError:
+            pass
     modules = cfgp["lean_modules"]
     thms = []
     for m in modules:
@@ -478,7 +487,7 @@ def check_property(pid, tier, seed, replay=None):
         for b in broken:
             header.append("NO LONGER CHECKS: " + b)
         if disagreements:
-            header.append("correspondence ScyllaVerif model (modeldriver %s) vs implementation (hx %s run) disagrees on %d case(s)" % (pid, pid, len(disagreements)))
+            header.append("correspondence ScyllaVerif model (md_%s) vs implementation (hx %s run) disagrees on %d case(s)" % (pid, pid, len(disagreements)))
         rcases = []
         for i in disagreements[:20]:
             header.append("case `%s`: impl=`%s` model=`%s`" % (cases[i][:300], str(results["impl"][i])[:300], str(results["model"][i])[:300]))
@@ -577,7 +586,13 @@ def setup():
         extract_tables.main()
     except ImportError:
         pass
-    rc, out = lake_build([])
+    try:
+        claimed = sorted(c["property_id"] for c in json.load(open(os.path.join(VERIF, "MANIFEST.json")))["checks"])
+    except Exception:
+        claimed = sorted(P.PROPS)
+    claimed = [p for p in claimed if p in P.PROPS]
+    mods = [m for p in claimed for m in P.PROPS[p]["lean_modules"]]
+    rc, out = lake_build(mods + ["md_" + p for p in claimed])
     log(out[-3000:])
     if rc != 0:
         log("setup: lake build failed")
